@@ -156,6 +156,10 @@ func runC04(c *Ctx) {
 	}
 	jsonTextAsData(c, "R5")
 	newValueTable(c, "R15")
+	c.shared("R18", "C16/R3", "a program that does not assign to the document leaves it as read: pluck's result holds cells of its own (a copy of each member's value), so assigning to a member of the plucked object does not write into the record", keyHas("pluck-stores", "pluck-absent"), runC16)
+	if es := c.P.LangFunc("(*Evaluator).evalStatement"); es != nil {
+		c.shared("R19", "C07/R4", "a program that does not assign to the document leaves it as read: a call yields a cell of its own holding the returned value, never the cell of the returned expression (`return $.price` does not hand out the document's member cell)", keyHas("return-raise", "return-slot", "return-consumed"), func(s *Ctx) { c07Return(s, es) })
+	}
 	c.shared("R17", "C08/R1", "a program that does not assign to the document leaves it as read: match bindings are the document's own cells, and every match evaluation pops its frame on every way out (a frame left behind keeps them bound to names that later code assigns to)", keyHas("balance "), func(s *Ctx) { c08R1(s, discoverFrameModel(s.P)) })
 	c.shared("R7", "C14/R4", "what -o writes is the root selected last: every selector's result becomes a root (a null result included)", keyHas("selector-root-unconditional", "root-list"), func(s *Ctx) { rootsPerValue(s, "R4") })
 	stringIndexArm(c, "R8")
